@@ -496,7 +496,7 @@ def c08_judge(a, b, ab, ra, rb, rab):
 
 def run_c08(tier):
     seed = common.seed()
-    common.build()
+    common.build(bins=True)
     V = Verdict("C08", tier)
     V.rule = ("pairs (A, B) of generated inputs over disjoint security sets sharing affiliates and a date range, B with deliberately impossible rows at "
               "rate 0-30%, plus a random interleaving A+B (in a third of the pairs given as 2-3 files, each part alone keeping its rows of each file); A, B and A+B are run in different harness processes; non-trivial = B contains a bookkeeping "
@@ -527,7 +527,51 @@ def run_c08(tier):
         for x in f[:1]:
             V.violation("%s [%s]" % (json.dumps(x)[:400], name),
                         {"kind": "pair", "prop": "C08", "a": a, "b": b, "ab": ab}, {"what": x["what"]})
-    return V.finish(floor_eval=100, floor_nontrivial=10, floors={"pairs_with_failing_security": 50})
+    c08_cli(V, pop, tier)
+    return V.finish(floor_eval=100, floor_nontrivial=10, floors={"pairs_with_failing_security": 50, "binary_pairs": 3})
+
+
+def c08_cli(V, pop, tier):
+    """The same independence through the real binary: per-security CSV files written by `acb -d` for A alone and for
+    A+B must be byte-identical (pairs without respelled affiliates, whose display spelling is first-come)."""
+    wd = common.workdir("c08cli")
+    try:
+        k = 6 if tier == "quick" else 60
+        done = 0
+        for cid, name, a, b, ab in pop:
+            if done >= k:
+                break
+            if a.get("chunks") or any((r.get("af") or "") not in ("", "Default", "Spouse", "Kid", "(R)", "Default (R)", "Spouse (R)", "Kid (R)") for r in ab["rows"]):
+                continue
+            outs = {}
+            ok = True
+            for tag, hh in (("a", a), ("ab", ab)):
+                inp = os.path.join(wd, "%s-%s.csv" % (cid, tag))
+                with open(inp, "w") as f:
+                    f.write(gen.rows_to_csv(hh["rows"], gen.used_cols(hh["rows"])))
+                od = os.path.join(wd, "%s-%s-out" % (cid, tag))
+                args = [inp, "-d", od, "--print-full-values"]
+                for sp in gen.init_args(hh.get("init", {})):
+                    args += ["-b", sp]
+                r = common.run_cli("acb", args, home=wd)
+                if r["rc"] != 0 and not os.path.isdir(od):
+                    ok = False
+                    break
+                outs[tag] = od
+            if not ok:
+                continue       # a load-stage error stops the whole run (outside the statement)
+            done += 1
+            V.bump("binary_pairs")
+            for sec in sorted({r["sec"] for r in a["rows"]}):
+                pa, pb = os.path.join(outs["a"], sec + ".csv"), os.path.join(outs["ab"], sec + ".csv")
+                ca = open(pa, "rb").read() if os.path.exists(pa) else None
+                cb = open(pb, "rb").read() if os.path.exists(pb) else None
+                if ca != cb:
+                    V.violation("acb -d: %s.csv differs between the run on A alone and the run on A+B [%s]" % (sec, name),
+                                {"kind": "pair", "prop": "C08", "a": a, "b": b, "ab": ab}, {"what": "binary: a security's file changed when other securities were added"})
+                    break
+    finally:
+        common.cleanup(wd)
 
 
 def replay_c08(rec):
